@@ -459,6 +459,38 @@ def memory_image_family(ck):
     return out
 
 
+NAN_A = "struct.unpack('<d', bytes.fromhex('000000000000f87f'))[0]"     # two NaNs with different payloads
+NAN_B = "struct.unpack('<d', bytes.fromhex('010000000000f87f'))[0]"
+
+
+def long_sequence_family(ck):
+    """long lists / tuples of atoms (around and beyond typical block sizes: 255, 256, 257, 1000 elements) that differ in ONE element:
+    its type (3 / 3.0 / True), the low bits of a big int, the sign of zero, a NaN payload; homogeneous and mixed int/float
+    surroundings; positional, keyword and nested"""
+    alts = [['3', '3.0', 'True', 'np.int64(3)'], ['2**53', '2**53 + 1', '2**53 + 2', 'float(2**53)'], ['2**64', '2**64 + 1', 'float(2**64)'],
+            ['0.0', '-0.0', '0', 'False'], [NAN_A, NAN_B], ['1e308', "float('inf')"], ["'3'", "b'3'"]]
+    bases = [['1', '2', '5'], ['1.5', '2.5'], ['1', '2.5', '4']]
+    out = []
+    for n in (255, 256, 257, 1000):
+        for kind in (('list', 'tuple') if n == 256 else ('list',)):
+            for bi, base in enumerate(bases):
+                if n != 256 and bi != 2:
+                    continue            # homogeneous surroundings at one length only
+                for ai, alt in enumerate(alts):
+                    if n == 1000 and ai > 1:
+                        continue
+                    if ck.tier == 'quick' and (bi != 2 or kind == 'tuple') and ai > 3:
+                        continue
+                    first = n == 256 and bi == 2 and kind == 'list'
+                    for pos in ((0, n - 1) if (first and ai < 2) else ((n * (ai + 1)) // 9,)):
+                        for e in alt:
+                            v = ['longseq', kind, n, base, [[pos, e]]]
+                            out.append(T('f', [v]))
+                            if first and pos != n - 1 and ai < 4:
+                                out += [T('f', [], [('a', v)]), T('f', [['list', [v, L('1')]]]), T('g', [['dict', [[L("'k'"), v]]]])]
+    return out
+
+
 def has_memory_view(spec):
     """does the spec hold an array whose memory layout is fixed by the spec ('perm') - those are always part of the tie"""
     if isinstance(spec, list):
@@ -479,7 +511,7 @@ def has_matrix(spec):
 
 def families(ck):
     fams = [('arrays', array_family(ck)), ('chains', chain_family(ck)), ('containers', mixed_family(ck)), ('exempt', exempt_family(ck)),
-            ('subclasses', subclass_family(ck)), ('memory images', memory_image_family(ck))]
+            ('subclasses', subclass_family(ck)), ('memory images', memory_image_family(ck)), ('long sequences', long_sequence_family(ck))]
     out = []
     for name, specs in fams:
         ck.count('family:' + name, len(specs))
@@ -629,6 +661,8 @@ def e2e_probes():
         ('matrix vs its transpose', lambda: Task(f, np.arange(9.).reshape(3, 3)), lambda: Task(f, np.arange(9.).reshape(3, 3).T), None),
         ('C vs Fortran order over the same bytes', lambda: Task(f, np.arange(6).reshape(2, 3)), lambda: Task(f, np.arange(6).reshape((2, 3), order='F')), None),
         ('axis-permuted cube', lambda: Task(f, x=np.arange(8).reshape(2, 2, 2)), lambda: Task(f, x=np.arange(8).reshape(2, 2, 2).transpose(1, 2, 0)), None),
+        ('long list, one element 3 vs 3.0', lambda: Task(f, [1.5] * 300 + [3]), lambda: Task(f, [1.5] * 300 + [3.0]), None),
+        ('long tuple, low bits of a big int', lambda: Task(f, x=(0.5,) * 256 + (2 ** 53,)), lambda: Task(f, x=(0.5,) * 256 + (2 ** 53 + 1,)), None),
         ('byte order', lambda: Task(f, np.zeros(2, dtype='<i4')), lambda: Task(f, np.zeros(2, dtype='>i4')), None),
         ('tasklet chain, inner operation', lambda: Task(f, Task(f, 0)[0][1]), lambda: Task(f, Task(f, 0)[1][1]), None),
         ('tasklet chain, length', lambda: Task(f, Task(f, 0)[1][1]), lambda: Task(f, Task(f, 0)[1]), None),
